@@ -65,6 +65,17 @@ def _Qrawg(W, c, gamma, sd, n):
     return float(((W - gamma * np.outer(ko, ki) / sd) * same).sum())
 
 
+def _wd(G, x, y):
+    """minimum total length over walks from x to y (0 for x == y); inf if unreachable: Floyd-Warshall on the positive lengths"""
+    A = _mat(G)
+    n = len(A)
+    D = np.where(A != 0, A, np.inf)
+    np.fill_diagonal(D, 0)
+    for k in range(n):
+        D = np.minimum(D, D[:, [k]] + D[[k], :])
+    return float(D[x, y])
+
+
 def _sdist(G, x, y, n=None):
     A = (np.asarray(G) != 0)
     n = len(A)
@@ -91,7 +102,7 @@ def _walk(G, x, y, m):
 
 
 SPEC = {
-    'sdist': _sdist, 'walk': _walk, 'Qrawg': _Qrawg, 'msq': (lambda W, c, x, k, n: float(sum(_modsum(_mat(W), c, x, m, n) ** 2 for m in range(int(k))))), 'QrawB': (lambda B, c, n: float((_mat(B)[:n, :n] * (np.asarray(c)[:n, None] == np.asarray(c)[None, :n])).sum())), 'umul': (lambda a, b: a * b), 'udiv': (lambda a, b: a / b),
+    'sdist': _sdist, 'walk': _walk, 'wd': _wd, 'Qrawg': _Qrawg, 'msq': (lambda W, c, x, k, n: float(sum(_modsum(_mat(W), c, x, m, n) ** 2 for m in range(int(k))))), 'QrawB': (lambda B, c, n: float((_mat(B)[:n, :n] * (np.asarray(c)[:n, None] == np.asarray(c)[None, :n])).sum())), 'umul': (lambda a, b: a * b), 'udiv': (lambda a, b: a / b),
     'rcnt': lambda M, x, n: int(np.count_nonzero(_mat(M)[x, :n])), 'ccnt': lambda M, y, n: int(np.count_nonzero(_mat(M)[:n, y])),
     'rsum': lambda M, x, n: float(_mat(M)[x, :n].sum()), 'csum': lambda M, y, n: float(_mat(M)[:n, y].sum()),
     'rpos': lambda M, x, n: int((_mat(M)[x, :n] > 0).sum()), 'rneg': lambda M, x, n: int((_mat(M)[x, :n] < 0).sum()),
@@ -224,6 +235,8 @@ class Eval:
             return (not self.ev(n.args[0])) or bool(self.ev(n.args[1]))
         if f == 'iff':
             return bool(self.ev(n.args[0])) == bool(self.ev(n.args[1]))
+        if f == 'Not':
+            return not self.ev(n.args[0])
         if f == 'And':
             return all(self.ev(a) for a in n.args)
         if f == 'Or':
